@@ -257,7 +257,7 @@ def spec_on_impl(o):
             if d[0] == "?":
                 return None
             if d[0] == "no":
-                return ("rate:accepts-undenoted", "rate %s is accepted as %s but denotes nothing" % (shown, nums))
+                return ("rate:dot-window" if b"/." in s else "rate:accepts-undenoted", "rate %s is accepted as %s but denotes nothing" % (shown, nums))
             _, cnt, win, frac = d
             exact = win.numerator // win.denominator
             okw = (nums[1] == exact) if not frac else abs(nums[1] - exact) <= 1
